@@ -484,6 +484,16 @@ func c04Decoded(r *Run) {
 	gov := genLayer(t, LayerOpts{MaxExtra: 3, AlgItem: algItem})
 	if kind == refcose.KSignTagged {
 		spec.Layer = genLayer(t, LayerOpts{MaxExtra: 2})
+		if t.Bool(1, 3, "c04.dec.bodyalg") {
+			// the BODY header states an algorithm (the verifier's own, or
+			// another one): it governs nothing - only the signer's protected
+			// header does
+			a := key.Alg
+			if t.Bool(1, 3, "c04.dec.bodyalg.other") {
+				a = []int64{-7, -8, -35}[t.Choose(3, "c04.dec.bodyalg.v")]
+			}
+			spec.Layer = genLayer(t, LayerOpts{MaxExtra: 2, Alg: &a})
+		}
 		spec.Signers = []*SignerSpec{{Layer: gov, Key: key}}
 	} else {
 		spec.Layer, spec.Key = gov, key
